@@ -1,5 +1,6 @@
 import Hgxv.Proofs.C05WF
 import Hgxv.Proofs.C05LinkC01
+import Hgxv.Proofs.C05GetEdges
 /-! # C05 — sub-hypergraph extraction and copy are faithful and leave the source untouched
 
 Property theorems about the model `Hgxv/Model/C05.lean` (`Content κ`: weighted flag, nodes with metadata,
@@ -117,6 +118,57 @@ theorem C05_edges_sub (src : Content κ) (order size : Option Int) (upTo keepIso
       (∀ n, n ∈ nodesOf r ↔ if keepIso then n ∈ nodesOf src else ∃ e ∈ r.edges, n ∈ Keyed.members e.1) ∧
       (nodesOf r).Nodup ∧ (∀ n ∈ nodesOf r, getNodeMeta r n = getNodeMeta src n) :=
   edgesSub_spec src order size upTo keepIso p hwf hp
+
+/-- `get_edges(order, size, up_to, subhypergraph, keep_isolated_nodes, metadata)` (both classes), EVERY combination of the
+flags.  Order and size together: rejected.  `keep_isolated_nodes` without `subhypergraph`: rejected (documented).  Otherwise,
+with `p` the filter of `C05_edge_filter`:
+* `subhypergraph = true` - whatever `metadata` says - the answer is the extracted hypergraph `r` of `C05_edges_sub` (same
+  weightedness, exactly the selected hyperedges with the source's weights and metadata, all nodes / the nodes of the selected
+  hyperedges with the source's node metadata): the `metadata` flag never turns an extraction into a listing and never changes it;
+* `subhypergraph = false`: the plain listing of the selected hyperedges in the source's order; with `metadata` each with
+  the metadata the per-hyperedge getter shows. -/
+theorem C05_get_edges_flags (src : Content κ) (order size : Option Int) (upTo sub keepIso md : Bool) (hwf : WF src) :
+    (order.isSome ∧ size.isSome → getEdges src order size upTo sub keepIso md = none) ∧
+    (edgeFilter (κ := κ) order size upTo ≠ none → sub = false → keepIso = true →
+        getEdges src order size upTo sub keepIso md = none) ∧
+    (∀ p, edgeFilter (κ := κ) order size upTo = some p →
+      (sub = true → ∃ r, getEdges src order size upTo sub keepIso md = some (.sub r) ∧
+          edgesSub src order size upTo keepIso = some r ∧ r.weighted = src.weighted ∧
+          r.edges = src.edges.filter (fun e => p e.1) ∧
+          (∀ n, n ∈ nodesOf r ↔ if keepIso then n ∈ nodesOf src else ∃ e ∈ r.edges, n ∈ Keyed.members e.1) ∧
+          (nodesOf r).Nodup ∧ (∀ n ∈ nodesOf r, getNodeMeta r n = getNodeMeta src n)) ∧
+      (sub = false → keepIso = false → md = false →
+          getEdges src order size upTo sub keepIso md = some (.keys ((src.edges.filter (fun e => p e.1)).map (·.1)))) ∧
+      (sub = false → keepIso = false → md = true →
+          getEdges src order size upTo sub keepIso md =
+            some (.keysMd ((src.edges.filter (fun e => p e.1)).map (fun e => (e.1, e.2.2)))))) := by
+  refine ⟨?_, ?_, ?_⟩
+  · rintro ⟨ho, hs⟩
+    obtain ⟨o, rfl⟩ := Option.isSome_iff_exists.1 ho
+    obtain ⟨s, rfl⟩ := Option.isSome_iff_exists.1 hs
+    rfl
+  · intro hf hsub hkeep
+    subst hsub; subst hkeep
+    unfold getEdges
+    cases hp : edgeFilter (κ := κ) order size upTo with
+    | none => exact absurd hp hf
+    | some p => simp
+  · intro p hp
+    refine ⟨?_, ?_, ?_⟩
+    · intro hsub
+      subst hsub
+      obtain ⟨r, h1, h2, h3, h4, h5, h6⟩ := C05_edges_sub src order size upTo keepIso p hwf hp
+      refine ⟨r, ?_, h1, h2, h3, h4, h5, h6⟩
+      unfold getEdges
+      simp [hp, h1]
+    · intro hsub hkeep hmd
+      subst hsub; subst hkeep; subst hmd
+      unfold getEdges
+      simp [hp, keysOf_filter]
+    · intro hsub hkeep hmd
+      subst hsub; subst hkeep; subst hmd
+      unfold getEdges
+      simp [hp, listingMd_filter src p hwf]
 
 /-- `DirectedHypergraph.get_edges(size = sz | order = sz - 1, up_to, subhypergraph=True, keep_isolated_nodes)` for ANY
 directed source - no disjointness of the two sides is assumed, so this covers hyperedges whose source and target sets
@@ -391,6 +443,24 @@ example : (edgesSub exSrc none (some 2) true false).map (fun r => (nodesOf r, ke
     some ([1, 2, 4], [[1, 2], [4]]) := by decide
 example : (edgesSub exSrc (some 1) none true true).map (fun r => (nodesOf r, keysOf r)) =
     some ([9, 1, 2, 3, 4], [[1, 2], [4]]) := by decide
+
+-- `C05_get_edges_flags` on the same source: the three kinds of answers, and the `metadata` flag next to `subhypergraph`
+/-- (for the examples) the answer of `get_edges` made comparable: kind of answer + content -/
+def exShow (a : Option (Answer UKey)) : Option (String × List UKey × List (UKey × Meta) × List Node) :=
+  a.map fun
+    | .keys ks => ("list", ks, [], [])
+    | .keysMd ks => ("dict", [], ks, [])
+    | .sub r => ("hypergraph", keysOf r, r.edges.map (fun e => (e.1, e.2.2)), nodesOf r)
+example : exShow (getEdges exSrc none (some 2) false false false false) = some ("list", [[1, 2]], [], []) := by rfl
+example : exShow (getEdges exSrc none (some 2) false false false true) = some ("dict", [], [([1, 2], [(1, 1)])], []) := by rfl
+example : exShow (getEdges exSrc none (some 2) false true false true) =
+    some ("hypergraph", [[1, 2]], [([1, 2], [(1, 1)])], [1, 2]) := by rfl
+example : exShow (getEdges exSrc none (some 2) false true true true) =
+    exShow (getEdges exSrc none (some 2) false true true false) ∧
+    exShow (getEdges exSrc none (some 2) false true true true) =
+      some ("hypergraph", [[1, 2]], [([1, 2], [(1, 1)])], [9, 1, 2, 3, 4]) := ⟨by rfl, by rfl⟩
+example : exShow (getEdges exSrc none (some 2) false false true true) = none ∧
+    exShow (getEdges exSrc (some 1) (some 2) false true false false) = none := ⟨by rfl, by rfl⟩
 
 -- directed: `get_edges(size=3, subhypergraph=True)` of an unweighted DirectedHypergraph
 def C05.exD : Content DKey :=
